@@ -87,6 +87,7 @@ let components : (string * (string list * (unit -> z -> tok list -> tok list))) 
   ("sf", (["cfg"; "pkt"; "live"], mk fo_new fo_step));
   ("wifi", (["wep"; "tkip"; "ccmp"; "aes"; "hs"], mk [] wifi_step));
   ("cap", (["ts"; "loop"], mk () cap_step));
+  ("tlv", (["dec"; "enc"], mk () tlv_step));
   ("ipr", (["pkt"], mk [] ipr_step));
   ("ack", (["new"; "pkt"; "q"], mk (ack_new Z0 false) ack_step));
 ]
